@@ -8,20 +8,34 @@ use std::cell::Cell;
 use fn_graph::{DataAccessDyn, Edge, FnGraph, FnGraphBuilder, FnId, TypeIds};
 use serde::{Deserialize, Serialize};
 
-/// Number of distinct marker data types.
+/// Number of distinct marker data types used by the run-time generators.
 pub const N_TYPES: u8 = 4;
+/// Number of marker data types available in total (the builder generator
+/// occasionally uses all of them, so that a function can declare more accesses
+/// than fit in a `TypeIds` small vector's inline storage of 8).
+pub const N_TYPES_MAX: u8 = 16;
 
-pub struct D0;
-pub struct D1;
-pub struct D2;
-pub struct D3;
+/// Marker data type number `N`.
+pub struct D<const N: usize>;
 
 pub fn type_id(i: u8) -> TypeId {
     match i {
-        0 => TypeId::of::<D0>(),
-        1 => TypeId::of::<D1>(),
-        2 => TypeId::of::<D2>(),
-        _ => TypeId::of::<D3>(),
+        0 => TypeId::of::<D<0>>(),
+        1 => TypeId::of::<D<1>>(),
+        2 => TypeId::of::<D<2>>(),
+        3 => TypeId::of::<D<3>>(),
+        4 => TypeId::of::<D<4>>(),
+        5 => TypeId::of::<D<5>>(),
+        6 => TypeId::of::<D<6>>(),
+        7 => TypeId::of::<D<7>>(),
+        8 => TypeId::of::<D<8>>(),
+        9 => TypeId::of::<D<9>>(),
+        10 => TypeId::of::<D<10>>(),
+        11 => TypeId::of::<D<11>>(),
+        12 => TypeId::of::<D<12>>(),
+        13 => TypeId::of::<D<13>>(),
+        14 => TypeId::of::<D<14>>(),
+        _ => TypeId::of::<D<15>>(),
     }
 }
 
